@@ -3,7 +3,7 @@ import AbtemVerif.Model.Chunks
 open AbtemVerif AbtemVerif.Proto AbtemVerif.Chunks
 
 /- requests (reply `ok …` | `err <kind>` | `bad-op`):
-   validate <shape> <chunkarg> <maxEl|none>      → ok <chunks ;-separated>
+   validate <shape> <chunkarg> <maxEl|none|A<bytes>:<itemsize>|S<bytes>:<itemsize>> → ok <chunks ;-separated>
    auto     <shape> <specs>    <maxEl|none>      → ok <chunks>
    fill     <shape> <specs>                      → ok <chunks>
    esc      <n> <m|none> <cs|none>               → ok <list>
@@ -28,6 +28,18 @@ def chunkArg? (s : String) : Option ChunkArg :=
   else if s.startsWith "i" then (parseInt? (s.drop 1).toString).map ChunkArg.int
   else none
 
+/-- `max_elements`: `none` ("auto" without dtype) | int | `A<bytes>:<itemsize>` ("auto" with a dtype: dask config bytes) |
+`S<bytes>:<itemsize>` (a byte string, already parsed by dask's parse_bytes) -/
+def maxEl? (s : String) : Option (Option Int) :=
+  if s.startsWith "A" || s.startsWith "S" then
+    match (s.drop 1).toString.splitOn ":" with
+    | [b, i] => do
+      let b ← parseRat? b
+      let i ← parseRat? i
+      pure (some (if s.startsWith "A" then AbtemVerif.Gen.Chunks.autoMaxFromConfig b i else AbtemVerif.Gen.Chunks.autoMaxFromString b i))
+    | _ => none
+  else parseOpt? parseInt? s
+
 def showPairs (l : List (Int × Int)) : String := showList (fun (a, b) => s!"{a}:{b}") l
 
 def reply {α} (f : α → String) : Except String α → String
@@ -36,7 +48,7 @@ def reply {α} (f : α → String) : Except String α → String
 
 def handle : List String → String
   | ["validate", shape, ch, m] =>
-    match parseList? parseInt? shape, chunkArg? ch, parseOpt? parseInt? m with
+    match parseList? parseInt? shape, chunkArg? ch, maxEl? m with
     | some shape, some ch, some m => reply (showListList showInt) (validateChunks shape ch m)
     | _, _, _ => "bad-op"
   | ["auto", shape, sp, m] =>
